@@ -146,6 +146,9 @@ def worker(sh):
     for line, (kind, kw), out in zip(sc.lines, sc.exp, outs):
         if out is None:
             continue
+        if kind == 'reobj':
+            wkd.judge_reobj(sh, line, out)
+            continue
         kv = wkd.parse_kv(out)
 
         def fail(key, msg):
